@@ -3,6 +3,7 @@ with the constructor parameters it was given."""
 import warnings
 
 import numpy as np
+import pandas as pd
 
 from menelaus.change_detection import ADWIN
 from menelaus.concept_drift import ADWINAccuracy
@@ -115,7 +116,11 @@ def run_case(case, ctx):
             d = (ADWIN if cls == "ADWIN" else ADWINAccuracy)(**gen.numpyfy(kw))
         except (ValueError, TypeError):  # a constructor may insist on plain Python types
             ctx.count("numpy_typed_parameters_refused_by_constructor")
+    reset_after_drift = "literal" not in case and len(xs) % 4 == 1
     for i, x in enumerate(xs):
+        if reset_after_drift and d.drift_state == "drift" and i % 3 == 0:
+            resets.add(i)  # the caller's own reset() right after an alarm, before the next sample (what an ensemble does to all members)
+            ctx.count("resets_right_after_a_drift")
         if i in resets:
             d.reset()
             ctx.count("explicit_resets")
@@ -133,7 +138,13 @@ def run_case(case, ctx):
             # indicator x = 1{y_true == y_pred}, presented through arbitrary label pairs
             yt = int(rngl.integers(0, 3))
             yp = yt if x == 1 else (yt + 1) % 3
-            d.update(yt, yp)
+            if len(xs) % 5 == 2:
+                # called the way an ensemble calls its members: the feature row comes along (documented as unused)
+                d.update(yt, yp, X=np.array([[float(i), 1.5, -2.0]]) if i % 2 else pd.DataFrame({"a": [1.0], "b": [float(i)]}))
+                if i == 0:
+                    ctx.count("accuracy_streams_with_feature_rows")
+            else:
+                d.update(yt, yp)
         st = d.drift_state
         ok, adopted = sh.step((x,), st)
         m = sh.model
